@@ -22,14 +22,48 @@ RULE += (
     ' Also: the same masks in every constellation back to back and transposed shapes with the same'
     ' cell-mask value; payloads as bytearray / subclass / memoryview.'
 )
+RULE += (
+    " Also: one message in eight read through a stream reader behind a twin whose satellite mask differs by the generator polynomial; mask attributes compared with the payload's; mask pairs that read the same in decimal."
+)
 ASSUMPTIONS = [
     "pinned tables: RTCM 10403.3 (2016); IDs defined only by later amendments (BeiDou 38-63 / B1C,B2a,B2b signals, "
     "NavIC 8-14 / S-band, GLONASS CDMA) are accepted either as the amendment's code or as N/A",
     "PRN labels are compared by numeric value (format such as zero padding is not part of the property)",
     "frequency-band labels (option 2) are not pinned: only N/A for undefined IDs is required there",
 ]
-GATES = ["messages_checked", "sat_bit_alone", "sig_bit_alone", "reserved_sig_checked", "reserved_sat_checked",
+GATES = ["read_behind_mask_twin", "messages_checked", "sat_bit_alone", "sig_bit_alone", "reserved_sig_checked", "reserved_sat_checked",
          "opt1", "opt2", "cells64", "same_masks_across_constellations"]
+
+
+def behind_twin(ctx, payload, satmask, opt):
+    """The message as ONE stream reader returns it when the frame follows a different valid frame of the same length
+    with the same checksum bytes: the generator polynomial xor-ed into the SATELLITE MASK (no more satellites than
+    before, so the twin decodes on its own)."""
+    import io
+
+    from pyrtcm import RTCMReader
+
+    from vf import refcrc
+
+    fr = refcrc.frame(payload)
+    low = len(payload) * 8 - 137  # distance of the satellite mask's lowest bit from the end of the payload
+    pc = bin(satmask).count("1")
+    best = None
+    for sh in range(0, 64 - 25 + 1):
+        n = bin(satmask ^ (refcrc.POLY << sh)).count("1")
+        if n <= pc and (best is None or n > best[0]):
+            best = (n, sh)
+    data = fr
+    if best is not None and low >= 0:
+        v = int.from_bytes(fr[:-3], "big") ^ (refcrc.POLY << (low + best[1]))
+        twin = v.to_bytes(len(fr) - 3, "big") + fr[-3:]
+        if refcrc.wellformed(twin) is None:
+            data = twin + fr
+            ctx.hit("read_behind_mask_twin" + ("_same_nsat" if best[0] == pc else ""))
+    out = [m for raw, m in RTCMReader(io.BytesIO(data), labelmsm=opt, quitonerror=0) if bytes(raw) == fr]
+    if not out or out[-1] is None:
+        raise RuntimeError("the stream reader returned no message for the valid frame")
+    return out[-1]
 
 
 def check(ctx, identity, satmask, sigmask, cellmask, opt, seedtag):
@@ -45,7 +79,10 @@ def check(ctx, identity, satmask, sigmask, cellmask, opt, seedtag):
     rep = streams.pick_rep(rng, 0.7)  # the same payload as bytes / bytearray / subclass / memoryview
     ctx.hit("rep:" + rep)
     try:
-        m = RTCMMessage(payload=streams.as_rep(rep, enc.payload), labelmsm=opt)
+        if len(enc.payload) <= 1023 and seedtag % 8 == 3:
+            m = behind_twin(ctx, enc.payload, satmask, opt)
+        else:
+            m = RTCMMessage(payload=streams.as_rep(rep, enc.payload), labelmsm=opt)
     except Exception as e:
         ctx.violation("msm-parse-raised", f"{identity} sats={sats[:6]}.. sigs={sigs} opt={opt} (payload as {rep}): "
                       f"{type(e).__name__}: {str(e)[:160]}", params)
@@ -53,6 +90,11 @@ def check(ctx, identity, satmask, sigmask, cellmask, opt, seedtag):
     ctx.hit("messages_checked")
     ctx.hit(f"opt{opt}")
     g = m.__dict__
+    for name, want in (("DF394", satmask), ("DF395", sigmask), ("DF396", enc.meta["cellmask"])):
+        if g.get(name) != want:
+            ctx.violation("count-mismatch", f"{identity}: the message reports {name}={g.get(name)!r}, the payload carries "
+                          f"{want:#x}: counts and labels belong to another mask", params)
+            return
     for name, want in (("NSat", len(sats)), ("NSig", len(sigs)), ("NCell", len(cells))):
         if g.get(name) != want:
             ctx.violation("count-mismatch", f"{identity}: {name}={g.get(name)!r}, mask popcount is {want}", params)
@@ -169,7 +211,34 @@ def run(ctx):
             sat2 = sum(1 << b for b in rng.sample(range(64), nsig))
             sig2 = sum(1 << b for b in rng.sample(range(32), nsat))
             check(ctx, identity, sat2, sig2, cm, opt, T(40))
+            # same satellites and same cell mask, ANOTHER signal mask with the same number of signals, right afterwards
+            sig3 = sum(1 << b for b in rng.sample(range(32), nsig))
+            check(ctx, identity, sat, sig3, cm, opt, T(40))
+            check(ctx, identity, sat, sig, cm, opt, T(40))
+            # satellite mask and signal mask holding the SAME number (compare-by-value slips)
+            v = sum(1 << b for b in rng.sample(range(32), rng.randint(1, 5)))
+            w = bin(v).count("1") ** 2
+            check(ctx, identity, v, v, rng.choice((T(w), (1 << w) - 1)), opt, T(40))
             ctx.hit("same_masks_across_constellations")
+        # mask pairs whose NUMBERS read the same when written one after the other in decimal ("1"+"64" / "16"+"4"),
+        # with the same cell-mask value, parsed right after each other
+        done = 0
+        while done < (30 if ctx.quick else 600):
+            a = rng.getrandbits(rng.choice((3, 7, 12, 20)))
+            b = rng.getrandbits(rng.choice((3, 7, 12, 20)))
+            txt = str(a) + str(b)
+            cuts = [c for c in range(1, len(txt)) if c != len(str(a)) and txt[c] != "0" and txt[0] != "0"
+                    and int(txt[:c]) < (1 << 64) and 0 < int(txt[c:]) < (1 << 32)]
+            if not a or not b or not cuts:
+                continue
+            c = rng.choice(cuts)
+            opt = rng.choice((1, 2))
+            for sm, gm in ((a, b), (int(txt[:c]), int(txt[c:])), (a, b)):
+                w = bin(sm).count("1") * bin(gm).count("1")
+                if 0 < w <= 64:
+                    check(ctx, identity, sm, gm, rng.choice((1, 3)) & ((1 << w) - 1), opt, T(40))
+            done += 1
+            ctx.hit("decimal_split_mask_pairs")
         # wider than 64 cells (engine still has to scan correctly; counts only matter) - a few
         for _ in range(2 if ctx.quick else 40):
             nsat = rng.randint(9, 40)
